@@ -137,7 +137,7 @@ def other_rules(tier, rng):
         names = [n for n in names if n in ("GaussLegendre", "ClenshawCurtis", "GaussChebyshev", "GaussLaguerre", "TanhSinh", "UniformInteger")]
         sizes = [5, 10]
     else:
-        sizes = [2, 3, 5, 8, 10, 16, 25, 40]
+        sizes = [2, 3, 4, 5, 6, 8, 10, 12, 16, 20, 25, 30, 40]
     out = []
     for name in names:
         for n in sizes:
@@ -572,7 +572,7 @@ def check(rep: Report, tier: str, modelled) -> None:
     _G.update(em=em, grids=grids, rules_ok=rules_ok, other=other, tier=tier)
     jobs = sorted({(j, p) for (j, p, q) in grids})
     rjobs = []
-    nper = 1 if tier == "quick" else 2
+    nper = 1 if tier == "quick" else 4
     for i in em.instances:
         dom_unit = i.cls in ("Becke", "LinearFinite", "MultiExp", "Knowles", "Handy", "HandyMod")
         for ridx, (name, n, rule) in enumerate(other):
